@@ -198,7 +198,40 @@ func bytesCoq(s string) string {
 	if s == "" {
 		return "[]"
 	}
+	if len(s) >= 64 {
+		return bytesCoqRLE(s)
+	}
 	return casefile.Bytes([]byte(s))
+}
+
+// bytesCoqRLE renders a long byte string with its runs of 16 or more equal bytes as
+// `repeat c n` (a term of the same type and value as the literal list; only shorter to parse)
+func bytesCoqRLE(s string) string {
+	var parts []string
+	lit := 0 // start of the pending literal segment
+	flush := func(end int) {
+		if end > lit {
+			parts = append(parts, casefile.Bytes([]byte(s[lit:end])))
+		}
+	}
+	i := 0
+	for i < len(s) {
+		j := i
+		for j < len(s) && s[j] == s[i] {
+			j++
+		}
+		if j-i >= 16 {
+			flush(i)
+			parts = append(parts, fmt.Sprintf("repeat %d%%N (N.to_nat %d%%N)", s[i], j-i))
+			lit = j
+		}
+		i = j
+	}
+	flush(len(s))
+	if len(parts) == 1 {
+		return "(" + parts[0] + ")"
+	}
+	return "(" + strings.Join(parts, " ++ ") + ")"
 }
 
 func (q query) coq() string {
